@@ -5,3 +5,6 @@ PROPERTY_RULES = {
 PROPERTY_RULES["C03"] = ["r01_leak"]
 PROPERTY_RULES["C15"] = ["r08_index"]
 PROPERTY_RULES["C11"] = ["r15_fail"]
+PROPERTY_RULES["C11"] = ["r15_fail", "r_slot"]
+PROPERTY_RULES["C16"] = ["r_slot", "r08_index"]
+PROPERTY_RULES["C19"] = ["r23_detcheck"]
